@@ -1,6 +1,13 @@
+mod cfgeq;
+mod crash;
 mod dump;
 mod keys;
+mod keytab;
+mod overrides;
+mod parseprobe;
 mod sim;
+mod switchtv;
+mod zippy;
 
 use keys::KeyNames;
 use serde_json::{json, Value};
@@ -326,6 +333,18 @@ fn main() {
         "dump-cfg" => cmd_dump(rest),
         "replay-edges" => cmd_replay_edges(rest),
         "keytable" => cmd_keytable(rest),
+        "zippy-dump" => zippy::cmd_zippy_dump(rest),
+        "zippy-edges" => zippy::cmd_zippy_edges(rest),
+        "ovr-cases" => overrides::cmd_cases(rest),
+        "ovr-eval" => overrides::cmd_eval(rest),
+        "c11-tables" => keytab::cmd_tables(rest),
+        "c11-parse" => keytab::cmd_parse(rest),
+        "switch-tv" => switchtv::cmd(rest),
+        "cfgeq" => cfgeq::cmd(rest),
+        "crash" => crash::cmd_crash(rest),
+        "parse-probe" => parseprobe::cmd_parse_probe(rest),
+        "lex-enum" => parseprobe::cmd_lex_enum(rest),
+        "sexpr-tree" => parseprobe::cmd_sexpr_tree(rest),
         other => {
             eprintln!("unknown command {other}");
             2
